@@ -228,10 +228,23 @@ pub fn generate(seed: u64, cases: usize, out: &mut dyn FnMut(String)) {
             2 => 2,
             _ => 1 + rng.below(24) as usize,
         };
-        let tail = if rng.chance(50) { 0 } else { 1 + rng.below(bs as u64 - 1) as usize };
+        // "near-full tail" plans: a final block a few samples shorter than the block size, tonal content,
+        // LPC with a tapered window, few blocks and several workers - per-thread caches keyed by (a function
+        // of) the block length are then hit by one thread in single-thread mode and missed by a fresh worker
+        let near_full = rng.chance(15);
+        let (nblocks, tail) = if near_full {
+            (2 + rng.below(2) as usize, bs - 1 - rng.below(15.min(bs as u64 - 2)) as usize)
+        } else {
+            (nblocks, if rng.chance(50) { 0 } else { 1 + rng.below(bs as u64 - 1) as usize })
+        };
+        if near_full {
+            cfg.use_lpc = true;
+            cfg.window_rect = false;
+            cfg.use_direct_mse = false;
+        }
         let len = if nblocks == 0 { 0 } else { (nblocks - 1) * bs + if tail == 0 { bs } else { tail } };
         let ch = 1 + rng.below(3) as usize;
-        let fam = *rng.pick(&gen::FAMILIES);
+        let fam = if near_full { *rng.pick(&["sine_noise", "sine_small", "tone_hf", "ar1"]) } else { *rng.pick(&gen::FAMILIES) };
         let bps = *rng.pick(&gen::BPS);
         let rate = if rng.chance(50) { *rng.pick(&gen::RATES) } else { 1 + rng.below(96000) as usize };
         let pcm = gen::pcm(&mut rng, fam, ch, bps, rate, len);
@@ -245,7 +258,8 @@ pub fn generate(seed: u64, cases: usize, out: &mut dyn FnMut(String)) {
             6 => (ncpu.min(16), None),
             _ => (*rng.pick(&[1usize, 2, 3, 5, 8]), None),
         };
-        let fault = rng.below(10);
+        let (w, env) = if near_full { (*rng.pick(&[2usize, 3, 4]), None) } else { (w, env) };
+        let fault = if near_full { 9 } else { rng.below(10) };
         let fail_at = if fault == 0 || fault == 1 || fault == 2 { Some(rng.below(nblocks as u64 + 2) as usize) } else { None };
         let mut bad_blocks = vec![];
         if (fault == 2 || fault == 3 || fault == 4) && nblocks > 0 {
